@@ -195,7 +195,13 @@ def step (st : St) (line : String) : St × List String :=
           | none => (st, ["bad-op"])
           | some calls =>
             match session canonPF c calls with
-            | .ok t => (st, [s!"run ok {" ".intercalate (t.witness.toList.map toString)}"])
+            | .ok t =>
+            -- the ALU records (what the ALU table rows will carry): the C10 theorems speak about them
+            let kindS : AluKind → String := fun k => match k with
+              | .add => "add" | .mul => "mul" | .boolCheck => "bool" | .mulAdd => "muladd" | .horner => "horner"
+            let recS := fun (r : AluRec (PF st.p)) => s!"{kindS r.kind}:{r.aVal},{r.bVal},{r.cVal},{r.outVal}"
+            (st, [s!"run ok {" ".intercalate (t.witness.toList.map toString)}",
+                  s!"recs {" ".intercalate (t.alu.toList.map recS)}"])
             | .error e => (st, [s!"run err {errStr e}"])
       | "run", np :: rest =>
         match st.c with
@@ -204,7 +210,13 @@ def step (st : St) (line : String) : St × List String :=
           let pubs := (rest.take np).map (PF.ofNat (p := st.p))
           let privs := (rest.drop np).map (PF.ofNat (p := st.p))
           match run canonPF c pubs privs with
-          | .ok t => (st, [s!"run ok {" ".intercalate (t.witness.toList.map toString)}"])
+          | .ok t =>
+            -- the ALU records (what the ALU table rows will carry): the C10 theorems speak about them
+            let kindS : AluKind → String := fun k => match k with
+              | .add => "add" | .mul => "mul" | .boolCheck => "bool" | .mulAdd => "muladd" | .horner => "horner"
+            let recS := fun (r : AluRec (PF st.p)) => s!"{kindS r.kind}:{r.aVal},{r.bVal},{r.cVal},{r.outVal}"
+            (st, [s!"run ok {" ".intercalate (t.witness.toList.map toString)}",
+                  s!"recs {" ".intercalate (t.alu.toList.map recS)}"])
           | .error e => (st, [s!"run err {errStr e}"])
       | _, _ => (st, ["bad-op"])
 
